@@ -225,7 +225,7 @@ impl CanonicalRequest {
 //@ fn canonical.rs impl CanonicalRequest :: get_auth_parameters_from_auth_header
 //@ params auth_header
 //@ hideutf8
-//@ props C08 C19 C13 C02 C17 C01 C03 C04 C05 C11 C16 C18
+//@ props C08 C19 C13 C02 C17 C01 C03 C04 C05 C11 C14 C15 C16 C18
 //@ ret r
 //   (the parameter `auth_header` is shadowed by its trimmed version; renamed so that loop invariants can still name the parameter)
 //@ replace 1 `let auth_header = trim_ascii(auth_header);` => `let auth_header_t = trim_ascii(auth_header);`
@@ -298,7 +298,7 @@ impl CanonicalRequest {
     }
 //@ before 1 `Ok(AuthParams {`
     proof {
-        assert(builder.credential is Some && builder.credential->Some_0@ == latin1(m[K_CREDENTIAL()])); //# C03 C02 C19 name=credential_is_the_credential_parameter
+        assert(builder.credential is Some && builder.credential->Some_0@ == latin1(m[K_CREDENTIAL()])); //# C03 C02 C19 C15 C14 name=credential_is_the_credential_parameter
         assert(builder.signature is Some && builder.signature->Some_0@ == latin1(m[K_SIGNATURE()])); //# C01 C19 name=signature_is_the_signature_parameter
         assert(self.header_date() is Some && timestamp_str@ == latin1(self.header_date()->Some_0)); //# C04 C16 C02 C19 name=timestamp_text_is_x_amz_date_else_date
         assert(builder.request_timestamp is None && builder.canonical_request_sha256 is None);
@@ -359,7 +359,7 @@ impl CanonicalRequest {
 //@ fn canonical.rs impl CanonicalRequest :: get_auth_parameters_from_query_parameters
 //@ params query_alg
 //@ hideutf8
-//@ props C08 C19 C13 C02 C17 C01 C03 C04 C05 C11 C16 C18
+//@ props C08 C19 C13 C02 C17 C01 C03 C04 C05 C11 C14 C15 C16 C18
 //@ ret r
 //@ replace 1 `unescaped_signed_headers.split(';').map(|s| s.to_string()).collect::<Vec<String>>()` => `string_split_to_strings(&unescaped_signed_headers, ';')`
 //@ replace 1 `signed_headers.sort();` => `sort_strings(&mut signed_headers);`
@@ -385,7 +385,7 @@ impl CanonicalRequest {
     let ghost names0 = vals_bytes(signed_headers@);
 //@ before 1 `Ok(AuthParams {`
     proof {
-        assert(builder.credential is Some && builder.credential->Some_0@ == latin1(self.first_query_decoded(Q_CREDENTIAL()))); //# C03 C02 C19 name=credential_is_the_first_decoded_x_amz_credential
+        assert(builder.credential is Some && builder.credential->Some_0@ == latin1(self.first_query_decoded(Q_CREDENTIAL()))); //# C03 C02 C19 C15 C14 name=credential_is_the_first_decoded_x_amz_credential
         assert(builder.signature is Some && str_bytes(builder.signature->Some_0@) == self.first_query(SIG())->Some_0); //# C01 C19 name=signature_is_the_first_x_amz_signature
         assert(timestamp_str@ == latin1(self.first_query_decoded(Q_DATE()))); //# C04 C16 C02 C19 name=timestamp_text_is_the_first_decoded_x_amz_date
         assert(self.first_query(Q_SECURITY_TOKEN()) is None ==> builder.session_token is None); //# C19 C03 name=no_token_parameter_no_token
